@@ -147,7 +147,7 @@ impl Prop for C15 {
         true
     }
     fn random_cases(tier: Tier) -> u64 {
-        tier.pick(8_000, 150_000)
+        tier.pick(8_000, 3_000_000)
     }
     fn strategy(tier: Tier) -> BoxedStrategy<Case> {
         let big = tier.pick(600u32, 70_000);
